@@ -35,6 +35,35 @@ package cache
 //@   inline
 //@   requires len(locks) >= 1 && len(locks) < 4294967296
 
+// ---------------------------------------------------------------- the Cache interface
+
+// What package proxy may rely on when it calls a cache through the interface.
+// Nothing is promised about what the cache holds between two calls (other
+// requests and the janitor may change it at any time): every clause speaks about
+// the values a call hands back.  Each backend method is verified against the
+// clause of its interface method ("implements"); a backend without that link
+// fails the "implements" obligation of the interface contract.
+//@ props C01 C03 C06 C09 C16
+//@ func Cache.Get
+//@   assigns cache.MemoryCache cache.FileCache cache.EntryMetadata cache.memoryInternalEntry map_map_cache.CacheKey atomic.Int64 ghost:mapsum ghost:fsinode ghost:jsize ghost:jexp ghost:handleinode
+//@   ensures [C09] result1 == nil ==> result0 != nil && allocated(result0) && result0.Metadata != nil && allocated(result0.Metadata) && result0.Data != nil
+//@   ensures [C09] result1 != nil ==> result0 == nil
+//@   ensures [C03] result1 == nil && result0.Stale ==> result0.Metadata.Expires < now
+//@   ensures [C03] result1 == nil && !result0.Stale ==> result0.Metadata.Expires >= old(now)
+
+//@ props C01 C06 C09 C16
+//@ func Cache.Cache
+//@   assigns cache.MemoryCache cache.FileCache cache.EntryMetadata cache.memoryInternalEntry map_map_cache.CacheKey atomic.Int64 ghost:mapsum ghost:fsinode ghost:jsize ghost:jexp ghost:handleinode ghost:isize ghost:icontent
+//@   ensures [C09] result1 == nil ==> result0 != nil && allocated(result0) && result0.Metadata != nil && allocated(result0.Metadata) && result0.Data != nil
+//@   ensures [C09] result1 != nil ==> result0 == nil
+//@   ensures [C06] result1 == nil ==> result0.Metadata.Expires == expires && result0.Metadata.Size == old(readlen(data)) && !result0.Stale
+
+//@ props C06 C09 C16
+//@ func Cache.UpdateMetadata
+//@   ghost callback modifier assigns EntryMetadata_MetadataT_.Expires
+//@   assigns cache.MemoryCache cache.FileCache cache.EntryMetadata cache.memoryInternalEntry map_map_cache.CacheKey atomic.Int64 ghost:mapsum ghost:fsinode ghost:jsize ghost:jexp
+//@   requires modifier != nil
+
 // ---------------------------------------------------------------- memory backend
 
 // Representation invariant: the byte counter equals the sum of the stored
@@ -62,6 +91,7 @@ package cache
 
 //@ props C01 C03 C14 C15 C16
 //@ func MemoryCache.Get
+//@   implements Cache.Get
 //@   nopanic
 //@   requires specMemInv(c)
 //@   ensures specMemInv(c)
@@ -79,7 +109,7 @@ package cache
 //@ fnfield cacheFunctions.removeEntry(key CacheKey) (err error)
 //@   ghost blocks-at 2
 //@   ghost holds shard
-//@   assigns cache.MemoryCache cache.FileCache cache.EntryMetadata cache.memoryInternalEntry map_ atomic.Int64 ghost:mapsum ghost:fsinode ghost:jsize ghost:jexp
+//@   assigns cache.MemoryCache cache.FileCache cache.EntryMetadata cache.memoryInternalEntry map_map_cache.CacheKey atomic.Int64 ghost:mapsum ghost:fsinode ghost:jsize ghost:jexp
 //@   ensures jsize <= old(jsize)
 
 //@ fnfield cacheFunctions.getCacheSize() (size int64)
@@ -102,7 +132,7 @@ package cache
 //@   trusted
 //@   ghost callbacks-only
 //@   ghost blocks-at 2
-//@   assigns cache.MemoryCache cache.FileCache cache.EntryMetadata cache.memoryInternalEntry map_ atomic.Int64 ghost:mapsum ghost:fsinode ghost:jsize ghost:jexp
+//@   assigns cache.MemoryCache cache.FileCache cache.EntryMetadata cache.memoryInternalEntry map_map_cache.CacheKey atomic.Int64 ghost:mapsum ghost:fsinode ghost:jsize ghost:jexp
 
 // ---------------------------------------------------------------- memory backend: store
 
@@ -122,9 +152,13 @@ package cache
 //@   ensures [C01] result1 == nil ==> in(c.entries, key) && sid(c.entries[key].data) == old(readall(data)) && c.entries[key].meta.Size == old(readlen(data)) && c.entries[key].meta.Expires == expires && result0 != nil && result0.Metadata == c.entries[key].meta
 //@   ensures [C01] result1 == nil ==> readercontent(asptr(result0.Data, "memoryReadSeekCloser").Reader) == sid(c.entries[key].data)
 //@   ensures [C01] result1 != nil && !evictIfFull ==> (forall k key :: in(c.entries, k) == old(in(c.entries, k)) && c.entries[k] == old(c.entries[k]))
+//@   ensures [C09] result1 == nil ==> allocated(result0) && result0.Metadata != nil && allocated(result0.Metadata) && result0.Data != nil && result0.Metadata.Size == old(readlen(data)) && !result0.Stale
+//@   ensures [C09] result1 != nil ==> result0 == nil
+//@   assigns cache.MemoryCache cache.FileCache cache.EntryMetadata cache.memoryInternalEntry map_map_cache.CacheKey atomic.Int64 ghost:mapsum ghost:fsinode ghost:jsize ghost:jexp ghost:handleinode ghost:isize ghost:icontent
 
 //@ props C12 C01 C09 C14 C15 C16
 //@ func MemoryCache.Cache
+//@   implements Cache.Cache
 //@   nopanic
 //@   requires specMemInv(c) && c.janitor != nil && c.maxCacheSize.val != nil
 //@   requires c.byteSize.val.v < 4611686018427387904
@@ -135,6 +169,7 @@ package cache
 // closure passed for it is verified against this frame, see package proxy).
 //@ props C12 C06 C14 C15 C16
 //@ func MemoryCache.UpdateMetadata
+//@   implements Cache.UpdateMetadata
 //@   nopanic
 //@   ghost callback modifier assigns EntryMetadata_MetadataT_.Expires
 //@   requires specMemInv(c) && modifier != nil
@@ -194,6 +229,7 @@ package cache
 // opened handle reads (handlecontent is a function of the handle's inode).
 //@ props C01 C03 C14 C15 C16
 //@ func FileCache.Get
+//@   implements Cache.Get
 //@   nopanic
 //@   requires specFileInv(c)
 //@   ensures specFileInv(c)
@@ -209,6 +245,7 @@ package cache
 // are never written: a store creates a new file and renames it into place.
 //@ props C12 C01 C09 C14 C15 C16
 //@ func FileCache.Cache
+//@   implements Cache.Cache
 //@   nopanic
 //@   ghost stable specFileInv(c) && c.janitor != nil && c.maxCacheSize.val != nil && c.byteSize.val.v < 4611686018427387904
 //@   requires specFileInv(c) && c.janitor != nil && c.maxCacheSize.val != nil && c.byteSize.val.v < 4611686018427387904
@@ -218,6 +255,7 @@ package cache
 
 //@ props C12 C06 C14 C15 C16
 //@ func FileCache.UpdateMetadata
+//@   implements Cache.UpdateMetadata
 //@   nopanic
 //@   ghost callback modifier assigns EntryMetadata_MetadataT_.Expires
 //@   requires specFileInv(c) && modifier != nil
@@ -253,7 +291,7 @@ package cache
 //@   ghost callbacks-only
 //@   ghost blocks-at 2
 //@   ghost callsite-requires [C13] removeEntry jsize > targetSize
-//@   assigns cache.MemoryCache cache.FileCache cache.EntryMetadata cache.memoryInternalEntry map_ atomic.Int64 ghost:mapsum ghost:fsinode ghost:jsize ghost:jexp
+//@   assigns cache.MemoryCache cache.FileCache cache.EntryMetadata cache.memoryInternalEntry map_map_cache.CacheKey atomic.Int64 ghost:mapsum ghost:fsinode ghost:jsize ghost:jexp
 //@   ensures [C13] jsize <= old(jsize)
 //@   ensures [C13] old(jsize) * 5 <= maxCacheBytes * 4 && maxCacheBytes >= 0 && maxCacheBytes <= 1125899906842624 ==> jsize == old(jsize)
 //@   loop 1 invariant forall i int :: 0 <= i && i < len(candidates) ==> candidates[i].meta != nil && allocated(candidates[i].meta)
@@ -274,7 +312,7 @@ package cache
 //@ props C13 C14 C16
 //@ func cacheJanitor.ensureCacheSize
 //@   nopanic
-//@   assigns cache.MemoryCache cache.FileCache cache.EntryMetadata cache.memoryInternalEntry map_ atomic.Int64 ghost:mapsum ghost:fsinode ghost:jsize ghost:jexp
+//@   assigns cache.MemoryCache cache.FileCache cache.EntryMetadata cache.memoryInternalEntry map_map_cache.CacheKey atomic.Int64 ghost:mapsum ghost:fsinode ghost:jsize ghost:jexp
 //@   requires j.cfg != nil && aset(j.cfg.Cache.MaxCacheSize.value)
 //@   ghost callsite-requires getCacheSize true
 
@@ -283,7 +321,7 @@ package cache
 //@ props C13 C14 C15 C16
 //@ func cacheJanitor.cleanExpiredEntries
 //@   nopanic
-//@   assigns cache.MemoryCache cache.FileCache cache.EntryMetadata cache.memoryInternalEntry map_ atomic.Int64 ghost:mapsum ghost:fsinode ghost:jsize ghost:jexp
+//@   assigns cache.MemoryCache cache.FileCache cache.EntryMetadata cache.memoryInternalEntry map_map_cache.CacheKey atomic.Int64 ghost:mapsum ghost:fsinode ghost:jsize ghost:jexp
 //@   ghost callsite-requires [C13] removeEntry jexp(arg_key) < now
 //@   loop 1 invariant len(keysToRemove) >= 0
 //@   loop 2 invariant rangeidx <= len(keysToRemove)
